@@ -67,9 +67,10 @@ def alphabet_value(el, n, rng, alphabet=None):
         return ('20040101-20040102' + '1' * n)[:n] if n > 17 else '2004010'[:n]
     v = ''.join(rng.choice(alphabet or V.PLAIN) for _ in range(n))
     if alphabet and n:
-        # keep first/last characters plain: no leading/trailing blank effects
-        v = rng.choice(V.PLAIN) + v[1:]
-        if n > 1:
+        # no blank at either end (leading/trailing blanks are findings of their own); any other hostile character may stand there
+        if v[0] == ' ':
+            v = rng.choice(V.PLAIN) + v[1:]
+        if n > 1 and v[-1] == ' ':
             v = v[:-1] + rng.choice(V.PLAIN)
     return v
 
